@@ -369,7 +369,8 @@ func aggregate(prop, tier string, seed int, spec propSpec, results []*rep.Result
 	var evals, states, trans, distinct int64
 	exhaustive := true
 	var samples []any
-	var rules, notes, assumptions []string
+	var rules, notes []string
+	assumptions := []string{"the harness drives real nri code rebuilt from /repo's working tree with the verification overlay (instrumented copies, export files); see coverage.instrumentation"}
 	engines := []any{}
 	outcomes := map[string]int{}
 	type vf struct {
